@@ -102,12 +102,17 @@ func trimOnce(files []srcFile, trace bool) (out []srcFile, val cue.Value, ctx *c
 		return nil, v, ctx, st
 	}
 	val = v
-	if v.Err() != nil {
-		// trim.Files returns the error without touching the files
-		return nil, v, ctx, "BUILD-ERROR"
-	}
 	cfg := &trim.Config{Trace: trace}
 	if err := trim.Files(afs, v, cfg); err != nil {
+		// trim.Files refuses packages whose value is an error; the files must be left alone
+		before, _, _, _ := normalise(files)
+		after, ferr := formatFiles(afs)
+		if ferr != nil || !sameFiles(before, after) {
+			return nil, v, ctx, "REFUSED-BUT-MODIFIED"
+		}
+		if v.Err() != nil {
+			return nil, v, ctx, "BUILD-ERROR"
+		}
 		return nil, v, ctx, "TRIM-ERROR"
 	}
 	out, err := formatFiles(afs)
@@ -142,6 +147,14 @@ func trimPackage(files []srcFile, trace bool) *trimResult {
 	res.TrimErr2 = st2
 	res.Out2 = out2
 	res.Idem = st2 == "" && sameFiles(out, out2)
+	if st2 == "BUILD-ERROR" {
+		// the second pass refuses the trimmed package and leaves it alone: nothing more is removed.
+		// (Seen when Value.Err() is nil for the input although a field is erroneous, and the rewriting
+		// `#S & {}` -> `#S & _` turns an incomplete reference error into a fatal one; the canonical
+		// values - errors as E - are equal, which is what (b) compares.)
+		res.Idem = true
+		res.Out2 = out
+	}
 	if !res.Idem && st2 == "" {
 		ctx3 := cuecontext.New()
 		if _, v3, st := buildPackage(ctx3, out2); st == "" {
@@ -325,4 +338,146 @@ func fileSkipped(files []srcFile) (skipped bool) {
 		}
 	}
 	return false
+}
+
+// ---- triage of value changes (exploration outside CoreCUE) --------------------------------
+
+// leafMap: path -> generic canonical form of the leaf (or struct/list marker) at that path
+func leafMap(v cue.Value, probes []string) map[string]string {
+	ctx := v.Context()
+	var pv []cue.Value
+	for _, p := range probes {
+		x := ctx.CompileString(p)
+		if x.Err() == nil {
+			pv = append(pv, x)
+		}
+	}
+	m := map[string]string{}
+	var walk func(v cue.Value, path string, depth int)
+	walk = func(v cue.Value, path string, depth int) {
+		if depth > 40 {
+			return
+		}
+		if d, ok := v.Default(); ok {
+			v = d
+		}
+		if isErr(v) {
+			m[path] = "E"
+			return
+		}
+		switch v.IncompleteKind() {
+		case cue.StructKind:
+			m[path] = "{}"
+			it, err := v.Fields(cue.All())
+			if err != nil {
+				m[path] = "E"
+				return
+			}
+			for it.Next() {
+				walk(it.Value(), path+"."+it.Selector().String(), depth+1)
+			}
+		case cue.ListKind:
+			m[path] = "[]"
+			l, err := v.List()
+			if err != nil {
+				m[path] = "E"
+				return
+			}
+			for i := 0; l.Next(); i++ {
+				walk(l.Value(), fmt.Sprintf("%s[%d]", path, i), depth+1)
+			}
+		default:
+			var b strings.Builder
+			genCanonRec(&b, v, pv, depth)
+			m[path] = b.String()
+		}
+	}
+	walk(v, "", 0)
+	return m
+}
+
+// conjunctsAt: the conjuncts of the value at the path of v (one level of & flattened)
+func conjunctsOf(v cue.Value) []cue.Value {
+	op, args := v.Expr()
+	if op == cue.AndOp {
+		var out []cue.Value
+		for _, a := range args {
+			out = append(out, conjunctsOf(a)...)
+		}
+		return out
+	}
+	return []cue.Value{v}
+}
+
+// classifyChange: for a package whose value changed under trim, decide whether EVERY path
+// whose leaf changed belongs to a known class:
+//
+//	D  (F11) the field has conjuncts carrying at least two DIFFERENT defaults: a concrete value
+//	         equal to one of them is removed, the remaining defaults then conflict
+//	S  (F12) the field has a conjunct that is a reference to the field itself (y: a: y.a)
+//
+// Returns the set of classes, or "" if some changed path is in neither.
+func classifyChange(files []srcFile, out []srcFile) string {
+	probes := collectProbes(files)
+	ctx1 := cuecontext.New()
+	_, v1, st1 := buildPackage(ctx1, files)
+	ctx2 := cuecontext.New()
+	_, v2, st2 := buildPackage(ctx2, out)
+	if st1 != "" || st2 != "" {
+		return ""
+	}
+	m1, m2 := leafMap(v1, probes), leafMap(v2, probes)
+	classes := map[string]bool{}
+	var changed []string
+	for p, a := range m1 {
+		if b, ok := m2[p]; !ok || a != b {
+			changed = append(changed, p)
+		}
+	}
+	for p := range m2 {
+		if _, ok := m1[p]; !ok {
+			return "" // a field appeared
+		}
+	}
+	if len(changed) == 0 {
+		return ""
+	}
+	for _, p := range changed {
+		if _, ok := m2[p]; !ok {
+			return "" // a field disappeared
+		}
+		if strings.Contains(p, "[") {
+			return ""
+		}
+		pv := v1.LookupPath(cue.ParsePath(strings.TrimPrefix(p, ".")))
+		if !pv.Exists() {
+			return ""
+		}
+		defaults := map[string]bool{}
+		self := false
+		for _, c := range conjunctsOf(pv) {
+			if d, ok := c.Default(); ok {
+				if s, err := format.Node(d.Syntax(cue.Final())); err == nil {
+					defaults[string(s)] = true
+				}
+			}
+			if _, rp := c.ReferencePath(); len(rp.Selectors()) > 0 && "."+rp.String() == p {
+				self = true
+			}
+		}
+		switch {
+		case self:
+			classes["S"] = true
+		case len(defaults) >= 2:
+			classes["D"] = true
+		default:
+			return ""
+		}
+	}
+	var cs []string
+	for c := range classes {
+		cs = append(cs, c)
+	}
+	sort.Strings(cs)
+	return strings.Join(cs, "")
 }
